@@ -88,7 +88,10 @@ package zksch
 //@   ensures result != nil && fresh(result) && result.a != nil && result.commitment.C != nil
 //@ func NewProof
 //@   nopanic[C05]
-//@   requires hash != nil && hash.h != nil && public != nil && private != nil && ptval(public) != p_id() && scval(private) != s_zero()
+//@   requires hash != nil && hash.h != nil && public != nil && private != nil
+// (A-RAND: every caller passes a freshly sampled non-zero secret -- or a share it validated -- and its image, which is
+// the identity only with negligible probability; callers do not prove this)
+//@   requires[A-RAND] ptval(public) != p_id() && scval(private) != s_zero()
 //@   modifies hstate(hash), wlog(hash.h)
 //@   allocates
 //@   ensures result != nil && shapedProof(result)
